@@ -51,6 +51,10 @@ enum SOp {
     ReserveExact(usize),
     WithCapacity(usize),
     Observers(usize),
+    /// Index / IndexMut with every range form at arbitrary byte indices (panic parity with std)
+    IndexRange(u8, usize, usize),
+    /// Extend with every supported item type, Add / AddAssign, collect_in
+    Traits(u8, Vec<String>),
 }
 
 fn name(op: &SOp) -> &'static str {
@@ -81,6 +85,8 @@ fn name(op: &SOp) -> &'static str {
         SOp::ReserveExact(..) => "reserve_exact",
         SOp::WithCapacity(..) => "with_capacity_in",
         SOp::Observers(..) => "observers",
+        SOp::IndexRange(..) => "index-range",
+        SOp::Traits(..) => "extend/add/collect-traits",
     }
 }
 
@@ -238,6 +244,65 @@ fn apply_b<'b>(b: &'b Bump, s: &mut BString<'b>, op: &SOp, leaked: &mut Vec<(&'b
             *s = BString::with_capacity_in(*n, b);
             SRes::Flag(s.capacity() >= *n)
         }
+        SOp::IndexRange(form, a, c) => {
+            let (a, c) = (*a, *c);
+            let t: &str = match form {
+                0 => &s[a..c],
+                1 => &s[..c],
+                2 => &s[a..],
+                3 => &s[..],
+                4 => &s[a..=c],
+                _ => &s[..=c],
+            };
+            let out = t.to_string();
+            // IndexMut goes through the same checks
+            let m: &mut str = match form {
+                0 => &mut s[a..c],
+                1 => &mut s[..c],
+                2 => &mut s[a..],
+                3 => &mut s[..],
+                4 => &mut s[a..=c],
+                _ => &mut s[..=c],
+            };
+            m.make_ascii_uppercase();
+            SRes::Text(out)
+        }
+        SOp::Traits(which, ts) => {
+            use std::borrow::Cow;
+            match which {
+                0 => s.extend(ts.iter().flat_map(|t| t.chars())),
+                1 => {
+                    let cs: Vec<char> = ts.iter().flat_map(|t| t.chars()).collect();
+                    s.extend(cs.iter());
+                }
+                2 => s.extend(ts.iter().map(|t| t.as_str())),
+                3 => s.extend(ts.iter().map(|t| BString::from_str_in(t, b))),
+                4 => s.extend(ts.iter().cloned()),
+                5 => s.extend(ts.iter().map(|t| if t.len() % 2 == 0 { Cow::Borrowed(t.as_str()) } else { Cow::Owned(t.clone()) })),
+                6 => {
+                    let old = std::mem::replace(s, BString::new_in(b));
+                    let mut n = old;
+                    for t in ts {
+                        n = n + t.as_str();
+                    }
+                    *s = n;
+                }
+                7 => {
+                    for t in ts {
+                        *s += t.as_str();
+                    }
+                }
+                _ => {
+                    use bumpalo::collections::CollectIn;
+                    let n: BString = ts.iter().flat_map(|t| t.chars()).collect_in(b);
+                    *s = n;
+                }
+            }
+            let eq = *s == s.as_str().to_string() && s.as_str() == &**s && *s == *s.as_str() && *s == std::borrow::Cow::Borrowed(s.as_str());
+            let r: &str = std::borrow::Borrow::borrow(&*s);
+            let a: &[u8] = s.as_ref();
+            SRes::Text(format!("{}|{}|{}", eq, r.len(), a.len()))
+        }
         SOp::Observers(i) => {
             let t = format!(
                 "{}|{:?}|{}|{}|{:?}|{:?}|{}",
@@ -378,6 +443,41 @@ fn apply_s(s: &mut String, op: &SOp) -> SRes {
             *s = String::with_capacity(*n);
             SRes::Flag(true)
         }
+        SOp::IndexRange(form, a, c) => {
+            let (a, c) = (*a, *c);
+            let t: &str = match form {
+                0 => &s[a..c],
+                1 => &s[..c],
+                2 => &s[a..],
+                3 => &s[..],
+                4 => &s[a..=c],
+                _ => &s[..=c],
+            };
+            let out = t.to_string();
+            let m: &mut str = match form {
+                0 => &mut s[a..c],
+                1 => &mut s[..c],
+                2 => &mut s[a..],
+                3 => &mut s[..],
+                4 => &mut s[a..=c],
+                _ => &mut s[..=c],
+            };
+            m.make_ascii_uppercase();
+            SRes::Text(out)
+        }
+        SOp::Traits(which, ts) => {
+            match which {
+                8 => {
+                    *s = ts.iter().flat_map(|t| t.chars()).collect();
+                }
+                _ => {
+                    for t in ts {
+                        s.push_str(t);
+                    }
+                }
+            }
+            SRes::Text(format!("{}|{}|{}", true, s.len(), s.len()))
+        }
         SOp::Observers(i) => {
             let t = format!(
                 "{}|{:?}|{}|{}|{:?}|{:?}|{}",
@@ -417,7 +517,7 @@ fn gen_bound(rng: &mut Rng, len: usize) -> B {
 }
 
 fn gen_op(rng: &mut Rng, len: usize) -> SOp {
-    match rng.below(44) {
+    match rng.below(46) {
         0..=5 => SOp::Push(CHARS[rng.below(CHARS.len())]),
         6..=8 => SOp::PushStr(gen_text(rng, 6)),
         9..=10 => SOp::Pop,
@@ -452,6 +552,8 @@ fn gen_op(rng: &mut Rng, len: usize) -> SOp {
             3 => SOp::ReserveExact(rng.below(100)),
             _ => SOp::WithCapacity(rng.below(64)),
         },
+        42 => SOp::IndexRange(rng.below(6) as u8, gen_idx(rng, len), gen_idx(rng, len)),
+        43 => SOp::Traits(rng.below(9) as u8, (0..rng.below(4)).map(|_| gen_text(rng, 3)).collect()),
         _ => SOp::Observers(gen_idx(rng, len).min(1 << 20)),
     }
 }
